@@ -84,6 +84,43 @@ async fn reader<R: ReadHalf>(mut r: ReadConnection<R>, conn: usize, dir: usize, 
     out
 }
 
+/// Peer for the recv_cancel scenario: writes each frame in the given segments with pauses.
+fn segment_sender(mut peer: StdStream, sizes: Vec<usize>, cuts: Vec<Vec<usize>>, gap_ms: u64) -> std::thread::JoinHandle<()> {
+    std::thread::spawn(move || {
+        for (i, sz) in sizes.iter().enumerate() {
+            let mut frame = serde_json::to_vec(&msg(0, 0, i, *sz)).unwrap();
+            frame.push(0);
+            let mut prev = 0;
+            let mut cs: Vec<usize> = cuts.get(i).cloned().unwrap_or_default().into_iter().filter(|c| *c > 0 && *c < frame.len()).collect();
+            cs.sort_unstable();
+            cs.dedup();
+            cs.push(frame.len());
+            for c in cs {
+                let _ = peer.write_all(&frame[prev..c]);
+                let _ = peer.flush();
+                prev = c;
+                std::thread::sleep(Duration::from_millis(gap_ms));
+            }
+        }
+        // keep the socket open until the receiver is done (it is dropped with this thread's end)
+        std::thread::sleep(Duration::from_millis(300));
+    })
+}
+
+fn check_call(i: usize, sz: usize, r: zlink_core::Result<Call<Method>>) -> String {
+    match r {
+        Ok(c) => {
+            let Method::Put { name, value } = c.method();
+            if *value == i as u64 && name.len() == sz && *name == body(0, 0, i, sz) {
+                "ok".into()
+            } else {
+                format!("corrupt:len={}:value={}", name.len(), value)
+            }
+        }
+        Err(e) => format!("err:{}", zv::err_name(&e)),
+    }
+}
+
 fn set_small_sndbuf(fd: i32) {
     let v: libc::c_int = 1024;
     unsafe {
@@ -162,7 +199,7 @@ mod tk {
             let mut recv = Vec::new();
             let mut werr = Vec::new();
             for t in tasks {
-                match tokio::time::timeout(Duration::from_secs(20), t).await {
+                match tokio::time::timeout(Duration::from_secs(case["timeout_s"].as_u64().unwrap_or(30)), t).await {
                     Ok(Ok(Ok(()))) => {}
                     Ok(Ok(Err(s))) => {
                         if s.starts_with('{') { recv.push(serde_json::from_str::<Value>(&s).unwrap()) } else { werr.push(s) }
@@ -172,6 +209,33 @@ mod tk {
                 }
             }
             json!({"recv": recv, "write_errors": werr, "ids": ids})
+        })
+    }
+
+    pub fn recv_cancel(case: &Value) -> Value {
+        let rt = tokio::runtime::Builder::new_current_thread().enable_all().build().unwrap();
+        rt.block_on(async {
+            let (a, peer) = StdStream::pair().unwrap();
+            a.set_nonblocking(true).unwrap();
+            let stream = tokio::net::UnixStream::from_std(a).unwrap();
+            let mut conn: Connection<zlink_tokio::unix::Stream> = Connection::new(zlink_tokio::unix::Stream::from(stream));
+            let (sizes, cuts, gap, rto) = recv_cancel_params(case);
+            let th = segment_sender(peer, sizes.clone(), cuts, gap);
+            let mut results = Vec::new();
+            let mut cancels = 0u64;
+            let start = std::time::Instant::now();
+            while results.len() < sizes.len() && start.elapsed() < Duration::from_secs(20) {
+                match tokio::time::timeout(Duration::from_millis(rto), conn.receive_call::<Method>()).await {
+                    Ok(r) => {
+                        let i = results.len();
+                        results.push(check_call(i, sizes[i], r));
+                    }
+                    Err(_) => cancels += 1,
+                }
+            }
+            drop(conn);
+            let _ = th.join();
+            json!({"results": results, "cancels": cancels})
         })
     }
 
@@ -305,20 +369,21 @@ mod sm {
             let mut recv = Vec::new();
             let mut werr = Vec::new();
             // a reader that never gets its messages must not hang the harness
-            async fn limited<T>(t: smol::Task<T>, what: &str) -> Result<T, String> {
+            let limit_s = case["timeout_s"].as_u64().unwrap_or(30);
+            async fn limited_by<T>(t: smol::Task<T>, what: &str, secs: u64) -> Result<T, String> {
                 futures_lite::future::or(async { Ok(t.await) }, async {
-                    smol::Timer::after(Duration::from_secs(20)).await;
+                    smol::Timer::after(Duration::from_secs(secs)).await;
                     Err(format!("timeout:{what}"))
                 })
                 .await
             }
             for (r1, r2) in rtasks {
-                let a = limited(r1, "reader").await.unwrap_or_else(|e| vec![e]);
-                let b = limited(r2, "reader").await.unwrap_or_else(|e| vec![e]);
+                let a = limited_by(r1, "reader", limit_s).await.unwrap_or_else(|e| vec![e]);
+                let b = limited_by(r2, "reader", limit_s).await.unwrap_or_else(|e| vec![e]);
                 recv.push(json!({"c2s": a, "s2c": b}));
             }
             for t in wtasks {
-                match limited(t, "writer").await {
+                match limited_by(t, "writer", limit_s).await {
                     Ok(Ok(())) => {}
                     Ok(Err(e)) => werr.push(e),
                     Err(e) => werr.push(e),
@@ -326,6 +391,36 @@ mod sm {
             }
             json!({"recv": recv, "write_errors": werr, "ids": ids})
         }))
+    }
+
+    pub fn recv_cancel(case: &Value) -> Value {
+        smol::block_on(async {
+            let (a, peer) = StdStream::pair().unwrap();
+            let stream = async_io::Async::new(a).unwrap();
+            let mut conn: Connection<zlink_smol::unix::Stream> = Connection::new(zlink_smol::unix::Stream::from(stream));
+            let (sizes, cuts, gap, rto) = recv_cancel_params(case);
+            let th = segment_sender(peer, sizes.clone(), cuts, gap);
+            let mut results = Vec::new();
+            let mut cancels = 0u64;
+            let start = std::time::Instant::now();
+            while results.len() < sizes.len() && start.elapsed() < Duration::from_secs(20) {
+                let r = futures_lite::future::or(async { Some(conn.receive_call::<Method>().await) }, async {
+                    smol::Timer::after(Duration::from_millis(rto)).await;
+                    None
+                })
+                .await;
+                match r {
+                    Some(r) => {
+                        let i = results.len();
+                        results.push(check_call(i, sizes[i], r));
+                    }
+                    None => cancels += 1,
+                }
+            }
+            drop(conn);
+            let _ = th.join();
+            json!({"results": results, "cancels": cancels})
+        })
     }
 
     pub fn cancel(case: &Value) -> Value {
@@ -391,6 +486,13 @@ fn ids(case: &Value) -> Value {
     json!({"created": n, "duplicates": dups})
 }
 
+fn recv_cancel_params(case: &Value) -> (Vec<usize>, Vec<Vec<usize>>, u64, u64) {
+    let sizes: Vec<usize> = case["sizes"].as_array().unwrap().iter().map(|x| x.as_u64().unwrap() as usize).collect();
+    let cuts: Vec<Vec<usize>> = case["cuts"].as_array().unwrap().iter()
+        .map(|a| a.as_array().unwrap().iter().map(|x| x.as_u64().unwrap() as usize).collect()).collect();
+    (sizes, cuts, case["gap_ms"].as_u64().unwrap_or(30), case["recv_timeout_ms"].as_u64().unwrap_or(10))
+}
+
 fn run_case(case: &Value) -> Value {
     if case["kind"] == "ids" {
         let mut out = ids(case);
@@ -402,6 +504,8 @@ fn run_case(case: &Value) -> Value {
     let mut out = match (rt, kind) {
         ("tokio", "intact") => tk::intact(case),
         ("tokio", "cancel") => tk::cancel(case),
+        ("tokio", "recv_cancel") => tk::recv_cancel(case),
+        ("smol", "recv_cancel") => sm::recv_cancel(case),
         ("smol", "intact") => sm::intact(case),
         ("smol", "cancel") => sm::cancel(case),
         _ => panic!("bad case"),
